@@ -286,7 +286,8 @@ type reopenCase struct {
 	Back    int64       `json:"back"`            // how far the second process's clock is behind (ns)
 	Colls   int         `json:"colls,omitempty"` // collections the writes are spread over (default 1)
 	// Tail: what the first process does after its writes: "" | "drop" (drops the named collection
-	// that received the last write) | "purge" (deletes the key written last and purges tombstones)
+	// that received the last write) | "purge" (deletes the key written last and purges tombstones) |
+	// "metaold" (a SetWithMeta with an old CAS is the last mutation)
 	Tail string `json:"tail,omitempty"`
 }
 
@@ -337,6 +338,9 @@ func runReopenCase(c reopenCase) ([]Deviation, error) {
 			steps1 = append(steps1, Op{K: "Set", C: ncoll - 1, Key: "z", Body: []byte(`{"last":1}`)}, Op{K: "DropColl", C: ncoll - 1})
 			left = all[:ncoll-1]
 		}
+	case "metaold":
+		// the last mutation of the first process carries a caller-supplied CAS far below the clock
+		steps1 = append(steps1, Op{K: "SetWithMeta", Key: "zm", Body: []byte(`{"m":1}`), JSON: true, MetaCas: "below", Cas: CasSpec{Kind: "zero"}, Exp: ExpSpec{Kind: "zero"}})
 	case "purge":
 		// ... or in a document that is deleted and purged
 		steps1 = append(steps1, Op{K: "Set", Key: "z", Body: []byte(`{"last":1}`)}, Op{K: "Delete", Key: "z"}, Op{K: "Purge"})
@@ -401,7 +405,7 @@ func runReopenCase(c reopenCase) ([]Deviation, error) {
 
 func TestC04Reopen(t *testing.T) {
 	st := statsFor("C04", "TestC04Reopen")
-	st.Rule = "two child processes on one on-disk bucket: the first writes with the global clock a day ahead and then closes, exits without closing, or is SIGKILLed at a generated hook occurrence (its writes are spread over 1-3 collections; optionally the collection holding the newest CAS is dropped, or the newest document deleted and purged, before it ends); the second reopens the bucket with the clock minutes..days behind the first and writes; every CAS acknowledged by the second process must exceed every CAS acknowledged by the first; non-trivial = the second clock is behind the persisted high-water mark and both processes acknowledged writes; distinct by case parameters"
+	st.Rule = "two child processes on one on-disk bucket: the first writes with the global clock a day ahead and then closes, exits without closing, or is SIGKILLed at a generated hook occurrence (its writes are spread over 1-3 collections; optionally the collection holding the newest CAS is dropped, or the newest document deleted and purged, or a SetWithMeta with an old CAS made the last mutation, before it ends); the second reopens the bucket with the clock minutes..days behind the first and writes; every CAS acknowledged by the second process must exceed every CAS acknowledged by the first; non-trivial = the second clock is behind the persisted high-water mark and both processes acknowledged writes; distinct by case parameters"
 	if replayMode() {
 		rp := loadReplay("TestC04Reopen")
 		if rp == nil {
@@ -425,7 +429,7 @@ func TestC04Reopen(t *testing.T) {
 	rapid.Check(t, func(rt *rapid.T) {
 		c := reopenCase{Writes1: rapid.IntRange(1, 8).Draw(rt, "w1"), Writes2: rapid.IntRange(1, 5).Draw(rt, "w2")}
 		c.Colls = rapid.IntRange(1, 3).Draw(rt, "colls")
-		c.Tail = pick(rt, []string{"", "", "drop", "purge"}, "tail")
+		c.Tail = pick(rt, []string{"", "", "drop", "purge", "metaold"}, "tail")
 		c.Back = pick(rt, []int64{int64(time.Minute), int64(time.Hour), int64(23 * time.Hour), int64(48 * time.Hour), 70000}, "back")
 		switch rapid.IntRange(0, 2).Draw(rt, "end") {
 		case 1:
